@@ -252,7 +252,14 @@ impl Expr {
                             }
                             Cow::Owned(lhs.for_type(flags)?)
                         }
-                        index @ Expr::Index { .. } => Cow::Owned(index.for_type(flags)?),
+                        index @ Expr::Index { lhs_raw, .. } => {
+                            if let TypeLayout::Native(NativeType::Str(..)) =
+                                lhs_raw.for_type(flags)?.disregard_distractors(true)
+                            {
+                                bail!("cannot use {op} on a character of a string: strings are immutable")
+                            }
+                            Cow::Owned(index.for_type(flags)?)
+                        }
                         Expr::DotLookup { expected_type, .. } => Cow::Borrowed(expected_type),
                         _ => bail!("invalid left operand for {op} (cannot apply to {})", lhs.for_type(flags)?),
                     }
